@@ -395,6 +395,17 @@ func probeMtpHealth(c *Chain, ctx sdk.Context, m perpetualtypes.MTP) (out string
 	if !ok {
 		return "-1"
 	}
+	// interest and funding that have accrued since the position was last touched count (C10: "apart from interest and
+	// funding that had already accrued"): settle them on the throw-away context with the real settlement functions first
+	if pool, found := c.App.PerpetualKeeper.GetPool(cc, m.AmmPoolId); found {
+		c.App.PerpetualKeeper.UpdateMTPBorrowInterestUnpaidLiability(cc, &m)
+		if _, err := c.App.PerpetualKeeper.SettleMTPBorrowInterestUnpaidLiability(cc, &m, &pool, ap); err != nil {
+			return "-1"
+		}
+		if err := c.App.PerpetualKeeper.SettleFunding(cc, &m, &pool, ap); err != nil {
+			return "-1"
+		}
+	}
 	h, err := c.App.PerpetualKeeper.GetMTPHealth(cc, m, ap, "uusdc")
 	if err != nil {
 		return "-1"
